@@ -1,5 +1,5 @@
 # Table read by mkmanifest.py
-HOOK_COMMITS = []
+HOOK_COMMITS = ["46eb209"]
 EXTRA_ENGINES = []
 NOT_BUILT = {}
 NOTES = ("All checks are generated-input search against an explicit oracle (property-based testing / fuzzing); "
